@@ -54,12 +54,21 @@ REFS = [
     ('numeric_adr', 'nnumeric', 'nnumericdata', 'numeric_size'), ('text_adr', 'ntext', 'ntextdata', 'text_size'),
     ('tuple_adr', 'ntuple', 'ntupledata', 'tuple_size'),
     # names and paths
-] + [('name_%sadr' % t, n, 'nnames', None) for t, n in (
-    ('body', 'nbody'), ('jnt', 'njnt'), ('geom', 'ngeom'), ('site', 'nsite'), ('cam', 'ncam'), ('light', 'nlight'),
-    ('mesh', 'nmesh'), ('skin', 'nskin'), ('hfield', 'nhfield'), ('tex', 'ntex'), ('mat', 'nmat'), ('pair', 'npair'),
-    ('exclude', 'nexclude'), ('eq', 'neq'), ('tendon', 'ntendon'), ('actuator', 'nactuator'), ('sensor', 'nsensor'),
-    ('numeric', 'nnumeric'), ('text', 'ntext'), ('tuple', 'ntuple'), ('key', 'nkey'))
-] + [('%s_pathadr' % t, n, 'npaths', None) for t, n in (('hfield', 'nhfield'), ('mesh', 'nmesh'), ('skin', 'nskin'), ('tex', 'ntex'))]
+] + [(name, nr, 'nnames', None) for name, (typ, nr, nc) in modeltab.model_pointers().items()      # every name_*adr array of the
+     if name.startswith('name_') and name.endswith('adr')                                        # model points into `names`
+] + [(name, nr, 'npaths', None) for name, (typ, nr, nc) in modeltab.model_pointers().items()     # every *_pathadr into `paths`
+     if name.endswith('_pathadr')]
+
+
+# Reference fields the documentation describes as ids / addresses into other arrays that mj_validateReferences does not
+# look at at all (decided structurally: the array never occurs in the path condition of the accepting path).
+# (array, number of entries, size of the target)
+UNCHECKED_REFS = [
+    ('body_treeid', 'nbody', 'ntree'), ('dof_treeid', 'nv', 'ntree'),
+    ('flex_vertbodyid', 'nflexvert', 'nbody'), ('flex_nodebodyid', 'nflexnode', 'nbody'), ('flex_matid', 'nflex', 'nmat'),
+    ('light_texid', 'nlight', 'ntex'), ('mat_texid', 'nmat * mjNTEXROLE', 'ntex'),
+    ('jnt_actuatorid', 'njnt', 'nactuator'), ('tendon_actuatorid', 'ntendon', 'nactuator'),
+]
 
 
 def _cnt(e):
